@@ -1,8 +1,8 @@
 (* C17 - Totals are symmetric under negation and independent of line order.
-   Property theorems only (proofs in Calc/NegProofs.v, Calc/PermProofs.v); vocabulary in
+   Property theorems only (proofs in Calc/NegProofs.v, Calc/PermProofs.v, Calc/PermTaxProofs.v); vocabulary in
    Calc/Symmetry.v (neg_doc, invert_doc, invert, remove_included_taxes, as_input) and
    Calc/NegSpec.v (result_neg, totals_neg).  Both rounding rules, every document. *)
-From Coq Require Import ZArith QArith List Bool String Permutation.
+From Coq Require Import ZArith QArith List Bool String Permutation SetoidList SetoidPermutation.
 From Verif Require Import Base.Wire Base.Rha Base.RhaProofs Num.Amount Calc.Doc Calc.Calc Calc.Merge Calc.Symmetry
   Calc.NegSpec Calc.NegProofs Calc.PermProofs Calc.TaxProofs Calc.PermTaxProofs.
 Import ListNotations.
@@ -76,10 +76,106 @@ Theorem category_tax_base_independent_of_row_order cr c cat tls tls' :
   (sumQ_bases cat (base_totals cr c tls) == sumQ_bases cat (base_totals cr c tls'))%Q.
 Proof. exact (category_base_independent_of_row_order cr c cat tls tls'). Qed.
 Print Assumptions category_tax_base_independent_of_row_order.
-(* NOT PROVED (kept visible): invariance of the individual tax groups under row permutation
-     Permutation tls tls' -> base_totals cr c tls' is base_totals cr c tls up to the order of categories
-     and groups and up to the textual precision of a group's percentage (first-fit grouping takes the
-     text of the first row).  Covered by the relational harness (tools/props/c17.py) only. *)
+(* tax side (complete): vocabulary in Calc/PermTaxProofs.v -
+     cat_rates code cts   the rate groups of the category with that code ([] when absent)
+     geqv g h             groups of the same class (country, extensions, percentage and surcharge equal as
+                          rationals) with equal base, amount and surcharge amount; the informational key and
+                          the TEXT of the percentage (21% / 21.0%) are those of the first row seen and are
+                          not compared
+     ceqv ct ct'          categories with equal code, retention flag, amount, surcharge and precise amount,
+                          and PermutationA geqv rate groups
+     PermutationA         permutation up to the given equivalence (Coq.Lists.SetoidPermutation)
+     retained_consistent  combos of the same category agree on `retained` (in the implementation the flag is
+                          copied from the regime's category definition; the category's flag is taken from
+                          the first combo seen, so this hypothesis is needed for the flag and the tax sum) *)
+Theorem tax_groups_of_a_category_independent_of_row_order cr c code tls tls' :
+  Permutation tls tls' ->
+  PermutationA geqv (cat_rates code (base_totals cr c tls)) (cat_rates code (base_totals cr c tls')).
+Proof. exact (category_groups_independent_of_row_order cr c code tls tls'). Qed.
+Print Assumptions tax_groups_of_a_category_independent_of_row_order.
+
+(* the calculated and presented categories are the same up to order (of categories, and of the groups in
+   each), and the precise tax sum is identical *)
+Theorem tax_summary_and_tax_sum_independent_of_row_order cr c tls tls' :
+  Permutation tls tls' -> retained_consistent tls ->
+  let cats := map (ct_round c) (map (ct_calc cr c) (base_totals cr c tls)) in
+  let cats' := map (ct_round c) (map (ct_calc cr c) (base_totals cr c tls')) in
+  PermutationA ceqv cats cats' /\
+  fold_left (sum_step cr) (map (ct_calc cr c) (base_totals cr c tls)) (zero_of c) =
+  fold_left (sum_step cr) (map (ct_calc cr c) (base_totals cr c tls')) (zero_of c).
+Proof. exact (tax_summary_independent_of_row_order cr c tls tls'). Qed.
+Print Assumptions tax_summary_and_tax_sum_independent_of_row_order.
+
+(* ... and the hypothesis cannot be dropped: without it the sign of the tax sum depends on row order *)
+Theorem tax_sum_independent_of_row_order_without_retention_hypothesis_refuted :
+  exists cr c tls tls', Permutation tls tls' /\
+    fold_left (sum_step cr) (map (ct_calc cr c) (base_totals cr c tls)) (zero_of c) <>
+    fold_left (sum_step cr) (map (ct_calc cr c) (base_totals cr c tls')) (zero_of c).
+Proof. exact tax_sum_without_consistent_retention_refuted. Qed.
+Print Assumptions tax_sum_independent_of_row_order_without_retention_hypothesis_refuted.
+
+(* the same without the up-to-order vocabulary: for every category code and every query combo q, the group
+   q falls into has the same base, amount and surcharge amount (or is absent in both) *)
+Theorem tax_group_figures_independent_of_row_order cr c tls tls' code q :
+  Permutation tls tls' ->
+  let cats := map (ct_round c) (map (ct_calc cr c) (base_totals cr c tls)) in
+  let cats' := map (ct_round c) (map (ct_calc cr c) (base_totals cr c tls')) in
+  option_map group_figures (find_group q (cat_rates code cats)) =
+  option_map group_figures (find_group q (cat_rates code cats')).
+Proof. exact (group_figures_independent_of_row_order cr c tls tls' code q). Qed.
+Print Assumptions tax_group_figures_independent_of_row_order.
+
+(* the whole calculation: reordering the lines, the document discounts and the document charges
+   (reorder d ls ds cs = d with these three lists replaced) gives the same outcome - an error in both, or
+   in both the same totals: every figure identical, the lists of lines / presented discounts / presented
+   charges permuted, the tax categories PermutationA ceqv (totals_same_up_to_order) *)
+Theorem calculation_independent_of_row_order d ls ds cs :
+  Permutation (d_lines d) ls -> Permutation (d_discounts d) ds -> Permutation (d_charges d) cs ->
+  doc_retained_consistent d ->
+  result_same_up_to_order (calculate d) (calculate (reorder d ls ds cs)).
+Proof. exact (calculate_independent_of_row_order d ls ds cs). Qed.
+Print Assumptions calculation_independent_of_row_order.
+
+Theorem document_totals_independent_of_row_order d ls ds cs t :
+  Permutation (d_lines d) ls -> Permutation (d_discounts d) ds -> Permutation (d_charges d) cs ->
+  doc_retained_consistent d -> calculate d = Totals t ->
+  exists t', calculate (reorder d ls ds cs) = Totals t' /\
+    Permutation (t_lines t) (t_lines t') /\
+    t_sum t = t_sum t' /\ t_discount t = t_discount t' /\ t_charge t = t_charge t' /\
+    t_tax_included t = t_tax_included t' /\ t_total t = t_total t' /\ t_tax t = t_tax t' /\
+    t_twt t = t_twt t' /\ t_payable t = t_payable t' /\ t_advances t = t_advances t' /\ t_due t = t_due t' /\
+    Permutation (t_dd t) (t_dd t') /\ Permutation (t_cc t) (t_cc t') /\
+    t_adv_rows t = t_adv_rows t' /\ t_dues t = t_dues t' /\
+    PermutationA ceqv (t_cats t) (t_cats t') /\
+    t_taxsum t = t_taxsum t' /\ t_taxsum_precise t = t_taxsum_precise t'.
+Proof. exact (totals_independent_of_row_order d ls ds cs t). Qed.
+Print Assumptions document_totals_independent_of_row_order.
+
+(* non-vacuity, and why "up to order" and "up to the text of the percentage" cannot be dropped: two lines
+   (retained IRPF 15% + VAT 21.0%; VAT 21%) and a charge (VAT 10%), swapped - same figures, but the
+   categories come out in the other order and the 21% group carries the other text *)
+Example reorder_example :
+  let l1 := mkLine (mkA 3 0) (mkItem (mkA 1005 2) None []) [] [] []
+              [mkCombo (bs "IRPF") [] [] (Some (mkA 15 2)) None true [];
+               mkCombo (bs "VAT") [] [] (Some (mkA 210 3)) None false []] in
+  let l2 := mkLine (mkA 1 0) (mkItem (mkA 999 2) None []) [] [] []
+              [mkCombo (bs "VAT") [] [] (Some (mkA 21 2)) None false []] in
+  let ch := mkDdc (mkA 500 2) None None [mkCombo (bs "VAT") [] [] (Some (mkA 10 2)) None false []] in
+  let d := mkDoc 2 false [] 1 [l1; l2] [] [ch] [] [] [] None in
+  doc_retained_consistent d /\ Permutation (d_lines d) [l2; l1] /\
+  exists t t', calculate d = Totals t /\ calculate (reorder d [l2; l1] [] [ch]) = Totals t' /\
+               t_payable t = t_payable t' /\ t_cats t <> t_cats t' /\
+               map ct_code (t_cats t) = [bs "IRPF"; bs "VAT"] /\ map ct_code (t_cats t') = [bs "VAT"; bs "IRPF"] /\
+               map (map rt_pct) (map ct_rates (t_cats t)) <> map (map rt_pct) (map ct_rates (t_cats t')).
+Proof.
+  cbv zeta. split; [|split].
+  - intros cb cb' I1 I2. cbn in I1, I2.
+    destruct I1 as [<-|[<-|[<-|[<-|[]]]]], I2 as [<-|[<-|[<-|[<-|[]]]]]; cbn; intros E; try reflexivity; discriminate E.
+  - apply perm_swap.
+  - eexists. eexists. split; [vm_compute; reflexivity|]. split; [vm_compute; reflexivity|].
+    split; [vm_compute; reflexivity|]. split; [vm_compute; discriminate|].
+    split; [vm_compute; reflexivity|]. split; [vm_compute; reflexivity|]. vm_compute. discriminate.
+Qed.
 
 (* RemoveIncludedTaxes: "payable equals the original total with tax" is FALSE of the faithful model
    (the residue is computed from presented totals but added to the unrounded total) - known finding *)
